@@ -120,4 +120,10 @@ MUTANTS = [
     ("C04", FI + ".index_fasta_file", FI, "scffld.add_row(Gap(rem, \"scaffold\"))", "scffld.add_row(Gap(rem, \"contig\"))"),
     ("C13", FI + ".index_fasta_file", FI, "if seq_buffer.tell() > buffer_size:", "if seq_buffer.tell() > 2 * buffer_size:"),
     ("C04", FI + ".index_fasta_file", FI, "                residues_per_line = 0\n", "                residues_per_line = None\n"),
+    # C09 / C10: functions that used to be TRUSTED (session 4)
+    ("C10", "tola.assembly.build_assembly.BuildAssembly.autosome_prefix$setter", "tola.assembly.build_assembly", "        self.assembly_stats.autosome_prefix = prefix\n", "        pass\n"),
+    ("C10", "tola.assembly.build_assembly.BuildAssembly.autosome_prefix", "tola.assembly.build_assembly", "        return self.scaffold_namer.autosome_prefix", "        return self.assembly_stats.autosome_prefix"),
+    ("C09", "tola.assembly.build_utils.ChrNamer.__init__", "tola.assembly.build_utils", "        self.chr_prefix = chr_prefix\n", "        self.chr_prefix = chr_prefix or \"SUPER_\"\n"),
+    ("C09", "tola.assembly.build_utils.ChrNamer.add_scaffold", "tola.assembly.build_utils", "        self.scaffolds.append((haplotype, scffld))", "        self.scaffolds.append((haplotype, scffld))\n        scffld.haplotype = hap"),
+    ("C09", "tola.assembly.build_utils.ChrNamer.add_scaffold", "tola.assembly.build_utils", "        self.scaffolds.append((haplotype, scffld))", "        self.scaffolds.insert(0, (haplotype, scffld))"),
 ]
